@@ -28,6 +28,7 @@ type scheduler struct {
 	cur       *gthread
 	abort     interface{} // panic payload raised in a child goroutine, re-raised in the main one
 	killed      bool
+	progress    int // number of synchronisation points passed by any thread
 	decisions   int
 	preemptions int
 }
@@ -57,6 +58,7 @@ func (s *scheduler) runnable() []*gthread {
 // yield is called by the running thread at a synchronisation point.  ready==nil means the
 // thread can continue; otherwise it blocks until ready() holds.
 func (s *scheduler) yield(ready func() bool) {
+	s.progress++
 	me := s.cur
 	me.ready = ready
 	s.dispatch(me)
@@ -397,4 +399,26 @@ func doSelect(fr *frame, instr *ssa.Select) value {
 		}
 	}
 	return r
+}
+
+
+// sleepYield models a thread that sleeps for a while (time.Sleep, a timer in a retry loop): it lets
+// the other threads run and resumes once one of them has made progress (or none can run).
+func (s *scheduler) sleepYield() {
+	if len(s.threads) <= 1 {
+		return
+	}
+	me := s.cur
+	start := s.progress
+	s.yield(func() bool {
+		if s.progress > start+1 {
+			return true
+		}
+		for _, t := range s.threads {
+			if t != me && !t.done && (t.ready == nil || t.ready()) {
+				return false
+			}
+		}
+		return true
+	})
 }
